@@ -52,6 +52,8 @@ const zoneAddr = "192.0.2.77"
 
 const coldZones = 10
 
+const silentZones = 6
+
 // ---------------------------------------------------------------- probe handler
 
 // probe sits in front of edns/cache/resolver. It never decodes the chain's
@@ -149,6 +151,7 @@ type sysEnv struct {
 	nextID  uint32
 	cold    int
 	pair    int
+	sil     int
 	shedNames []*client
 	serial  int
 	maxLat  time.Duration
@@ -159,8 +162,9 @@ var env *sysEnv
 
 const (
 	sysQueryTimeout    = 1200 * time.Millisecond
-	sysUpstreamTimeout = 500 * time.Millisecond
+	sysUpstreamTimeout = 400 * time.Millisecond
 	sysListenMargin    = 2 * time.Second
+	lateMargin         = 800 * time.Millisecond
 )
 
 func freePort() int {
@@ -340,13 +344,21 @@ func newSysEnv(kind string, dedupTimeout time.Duration) *sysEnv {
 	// healthy but slow: a shared lookup collects the bad rcode first
 	nsz2 := e.w.AddZone("nsz2.test.", l3.ZoneOpts{})
 	nsz2.Servers[0].SetBehaviour(l3.Behaviour{Rcode: func(dns.Question) int { return dns.RcodeRefused }})
-	e.w.AddServer("nsz2.test.").SetBehaviour(l3.Behaviour{Delay: func(dns.Question, bool) time.Duration { return 300 * time.Millisecond }})
+	e.w.AddServer("nsz2.test.").SetBehaviour(l3.Behaviour{Delay: func(dns.Question, bool) time.Duration { return 250 * time.Millisecond }})
 	for i := 1; i <= coldZones; i++ {
 		f := fmt.Sprintf("pair%d", i)
 		host := fmt.Sprintf("pns%d.nsz2.test.", i)
 		z := e.w.AddZone(f+".test.", l3.ZoneOpts{NSHosts: []string{host}, NoGlue: true})
 		z.Add("*."+f+".test. 60 IN A "+zoneAddr, "*."+f+".test. 60 IN TXT \"t\"")
 		nsz2.Add(host + " 60 IN A " + z.Servers[0].IP.String())
+	}
+	// silent zones nobody asked yet: the resolver's "all servers failed five times" re-check of a
+	// zone's name-server hosts (checkHosts) fires once per delegation, so each use needs a fresh one
+	for i := 1; i <= silentZones; i++ {
+		f := fmt.Sprintf("sil%d", i)
+		z := e.w.AddZone(f+".test.", l3.ZoneOpts{})
+		z.Add("*." + f + ".test. 60 IN A " + zoneAddr)
+		z.Servers[0].SetBehaviour(l3.Behaviour{Drop: func(dns.Question, bool) bool { return true }})
 	}
 	for _, f := range faults {
 		z := e.w.AddZone(f+".test.", l3.ZoneOpts{})
@@ -519,6 +531,9 @@ type client struct {
 	startDelay  time.Duration
 	cancelled   bool
 	reask       *client // shedreask: the same name asked again after the burst
+	listen      time.Duration // own listening window (0: the wave's)
+	padTo       int     // pad the query (EDNS padding option) to exactly this many bytes
+	mustOK      bool    // a healthy name: anything but its record is a failure
 }
 
 func (e *sysEnv) newQuery(c *client) *dns.Msg {
@@ -527,6 +542,19 @@ func (e *sysEnv) newQuery(c *client) *dns.Msg {
 	m.Id = c.id
 	m.RecursionDesired = true
 	m.SetEdns0(1232, false)
+	if c.padTo > 0 {
+		o := m.IsEdns0()
+		pad := &dns.EDNS0_PADDING{Padding: []byte{}}
+		o.Option = append(o.Option, pad)
+		if n := c.padTo - m.Len(); n > 0 {
+			pad.Padding = make([]byte, n)
+		}
+		if b, err := m.Pack(); err == nil && len(b) != c.padTo { // Len() can differ from the packed size
+			if d := c.padTo - len(b) + len(pad.Padding); d >= 0 {
+				pad.Padding = make([]byte, d)
+			}
+		}
+	}
 	return m
 }
 
@@ -882,7 +910,7 @@ func (e *sysEnv) build(g *group) {
 			}
 		}
 		c := e.mk("msg", g.zone, "c"+g.tag, dns.TypeA)
-		c.cancelAfter = 150 * time.Millisecond
+		c.cancelAfter = 120 * time.Millisecond
 		add(c, false)
 		for i := 1; i < g.n; i++ {
 			o := e.mk([]string{"udp", "tcp"}[i%2], g.zone, lbl(i), dns.TypeA)
@@ -900,6 +928,60 @@ func (e *sysEnv) build(g *group) {
 	case "shedreask": // more distinct questions for one slow healthy zone than the limiter admits; the shed names are asked again once capacity is back
 		for i := 0; i < g.n; i++ {
 			add(e.mk("udp", g.zone, lbl(i), dns.TypeA), true)
+		}
+	case "fifth": // six distinct names under a silent zone nobody asked yet: the fifth all-servers-failed
+		// lookup re-checks the zone's name-server hosts — on the failing client's own, expired, context
+		if g.zone == "sil" {
+			if e.sil < silentZones {
+				e.sil++
+				g.zone = fmt.Sprintf("sil%d", e.sil)
+			} else {
+				g.zone = "drop"
+			}
+		}
+		for i := 0; i < g.n; i++ {
+			add(e.mk("udp", g.zone, lbl(i), dns.TypeA), true)
+		}
+	case "fifthb", "fifth2": // the second cohort for the zone `fifth` used in the previous wave (its servers'
+		// circuit breakers are open now: lookups fail at once as "all servers failed", the fifth triggers
+		// the re-check); fifth2 = both cohorts on a fresh zone, 3.2 s apart (used to confirm an alarm)
+		delay := time.Duration(0)
+		if g.pattern == "fifth2" {
+			if e.sil < silentZones {
+				e.sil++
+			}
+			delay = e.qto + sysListenMargin
+			for i := 0; i < g.n; i++ {
+				add(e.mk("udp", fmt.Sprintf("sil%d", e.sil), lbl(200+i), dns.TypeA), false)
+			}
+		}
+		if e.sil == 0 {
+			e.sil = 1
+		}
+		g.zone = fmt.Sprintf("sil%d", e.sil)
+		for i := 0; i < g.n; i++ {
+			c := e.mk("udp", g.zone, lbl(100+i), dns.TypeA)
+			c.startDelay = delay
+			add(c, true)
+		}
+	case "pipeslow": // a slow query first, quick ones pipelined behind it on the same connection:
+		// each frame has its own budget, the later ones must still be answered
+		add(e.mk("pipe", g.zone, lbl(0), dns.TypeA), true)
+		for i := 1; i < g.n; i++ {
+			c := e.mk("pipe", "ok", lbl(i), dns.TypeA)
+			c.mustOK = true
+			add(c, true)
+		}
+	case "framesize": // well-formed queries padded (EDNS padding) to frame lengths on the slab-class boundaries
+		for i, l := range []int{2047, 2048, 2049, 4095, 4096, 4097, 16382, 65535} {
+			c := e.mk("tcp", g.zone, lbl(i), dns.TypeA)
+			c.padTo = l
+			add(c, true)
+		}
+		for i, l := range []int{1231, 1232, 4095, 4096} {
+			c := e.mk("udp", g.zone, lbl(100+i), dns.TypeA)
+			c.padTo = l
+			add(c, true)
 		}
 	case "junk": // datagrams that are not admitted queries (oversized, short, QR, bad counts …)
 		for i := 0; i < g.n; i++ {
@@ -938,7 +1020,15 @@ func (e *sysEnv) launch(gs []*group) {
 			switch c.kind {
 			case "udp":
 				wg.Add(1)
-				go func() { defer wg.Done(); time.Sleep(c.startDelay); e.runUDP(c, listen) }()
+				go func() {
+					defer wg.Done()
+					time.Sleep(c.startDelay)
+					l := listen
+					if c.listen > 0 {
+						l = c.listen
+					}
+					e.runUDP(c, l)
+				}()
 			case "tcp":
 				wg.Add(1)
 				go func() { defer wg.Done(); time.Sleep(c.startDelay); e.runTCP([]*client{c}, listen, 0) }()
@@ -1046,11 +1136,19 @@ func (e *sysEnv) judge(gs []*group) verdict {
 				}
 			case dns.RcodeServerFailure:
 				nSF++
+				if c.mustOK && !e.small {
+					softHit = true
+				}
 				if (recoverable[g.zone] || strings.HasPrefix(g.zone, "cold") || strings.HasPrefix(g.zone, "pair")) && !e.small {
 					softHit = true
 				}
 			default:
 				fail("sys/failure-not-servfail", fmt.Sprintf("%s name=%s rcode=%s", where, c.name, dns.RcodeToString[r.rcode]))
+			}
+			// a reply that takes a whole extra timeout (the pipehalf stall is the documented
+			// 2 s tcpQueryWait hold, see notes "Noticed"; pipelined frames are served serially)
+			if r.at > e.qto+lateMargin && kind != "pipeh" && kind != "pipe" {
+				fail("sys/late-reply/"+kind, fmt.Sprintf("%s name=%s after=%s budget=%s", where, c.name, r.at.Round(time.Millisecond), e.qto))
 			}
 			if c.other > 0 {
 				fail("sys/foreign-message/"+kind, fmt.Sprintf("%s name=%s n=%d", where, c.name, c.other))
@@ -1186,8 +1284,16 @@ func execSys(f []string) vlib.Res {
 			g.tag = fmt.Sprintf("%sw%d", g.tag, e.serial)
 			e.build(g)
 		}
+		stallReset()
 		e.launch(gs)
 		v := e.judge(gs)
+		worstStall := time.Duration(stallMax.Load())
+		v.tags = append(v.tags, fmt.Sprintf("stall_ms=%d", worstStall.Milliseconds()))
+		if strings.Contains(v.fail, "sig=sys/late-reply/") && worstStall < 300*time.Millisecond {
+			// a reply a whole extra timeout late while this process never stalled: not noise. Some
+			// causes fire once per delegation (checkHosts at the fifth failure) and cannot be re-run.
+			return vlib.Res{Impl: "done", Oracle: v.fail, Tags: "nt," + strings.Join(v.tags, ",") + ",late-confirmed-by-watchdog"}
+		}
 		// Everything here runs in real time on a shared machine: a verdict
 		// counts only if it reproduces on a second, fresh run of the same
 		// groups (a stalled process does not strike the same way twice; a
@@ -1210,8 +1316,14 @@ func execSys(f []string) vlib.Res {
 					zone = "cold"
 				case strings.HasPrefix(zone, "pair"):
 					zone = "pair"
+				case strings.HasPrefix(zone, "sil"):
+					zone = "sil"
 				}
-				g2 := &group{pattern: g.pattern, zone: zone, n: g.n, tag: fmt.Sprintf("%sr%d", base, e.serial)}
+				pat := g.pattern
+				if pat == "fifthb" {
+					pat = "fifth2"
+				}
+				g2 := &group{pattern: pat, zone: zone, n: g.n, tag: fmt.Sprintf("%sr%d", base, e.serial)}
 				e.build(g2)
 				again = append(again, g2)
 			}
@@ -1425,6 +1537,30 @@ func (e *sysEnv) runUDPUntilReply(c *client, listen time.Duration) {
 		}
 		c.note(buf[:n], time.Since(c.sent))
 	}
+}
+
+// stall watchdog: the largest gap between two 10 ms ticks since the last reset. Clients and server
+// share this process, so a late reply observed while no tick was late is not scheduling noise.
+var (
+	stallOnce sync.Once
+	stallMax  atomic.Int64
+)
+
+func stallReset() {
+	stallOnce.Do(func() {
+		go func() {
+			last := time.Now()
+			for {
+				time.Sleep(10 * time.Millisecond)
+				now := time.Now()
+				if g := int64(now.Sub(last)); g > stallMax.Load() {
+					stallMax.Store(g)
+				}
+				last = now
+			}
+		}()
+	})
+	stallMax.Store(0)
 }
 
 // idleLeased samples the lease counter of a quiescent server until it is stable.
